@@ -28,7 +28,9 @@
 #include <unistd.h>
 
 #include <algorithm>
+#include <fstream>
 #include <functional>
+#include <iterator>
 #include <map>
 #include <memory>
 #include <set>
@@ -297,8 +299,9 @@ static string RenderManifest(const Scenario& sc) {
     if (s.restat) m += "  restat = 1\n";
     if ((s.gen && s.genlvl.empty()) || s.genlvl == "cleared") m += "  generator = 1\n";
     if (s.deps == "depfile" || s.deps == "gcc") m += "  depfile = " + s.outs[0] + ".d\n";
-    if (s.deps == "gcc") m += "  deps = gcc\n";
-    if (s.deps == "msvc") m += "  deps = msvc\n";
+    // statements with an even number bind `deps` themselves (below), the others get it from their rule
+    if (s.deps == "gcc" && s.id % 2) m += "  deps = gcc\n";
+    if (s.deps == "msvc" && s.id % 2) m += "  deps = msvc\n";
     if (s.rsp) m += "  rspfile = " + RspPath(s) + "\n  rspfile_content = " + RspContent(s) + "\n";
   }
   for (auto& s : sc.stmts) {
@@ -312,6 +315,7 @@ static string RenderManifest(const Scenario& sc) {
     m += "\n";
     if (!s.pool.empty()) m += "  pool = " + s.pool + "\n";
     if (!s.dd.empty()) m += "  dyndep = " + s.dd + "\n";
+    if ((s.deps == "gcc" || s.deps == "msvc") && s.id % 2 == 0) m += "  deps = " + s.deps + "\n";
     if (s.gen && s.genlvl == "build") m += "  generator = 1\n";
     if (s.genlvl == "cleared") m += "  generator =\n";
   }
@@ -1082,6 +1086,49 @@ static string CyclePath(const string& m) {
 static void WriteManifest(Scenario& sc) { g_disk.Put("build.ninja", RenderManifest(sc), false); }
 
 // One full execution of a scenario's history with the current chooser.
+// Pads both logs with copies of their own records, in order, until the next open recompacts them (build log: more than
+// 100 records and 3 per output; deps log: more than 1000 deps records and 3 per output).  The meaning does not change.
+static void InflateLogs(const string& blog, const string& dlog) {
+  {
+    ifstream in(blog, ios::binary);
+    if (in) {
+      string all((istreambuf_iterator<char>(in)), istreambuf_iterator<char>());
+      in.close();
+      size_t nl = all.find('\n');
+      if (nl != string::npos && nl + 1 < all.size()) {
+        string recs = all.substr(nl + 1);
+        size_t cnt = std::count(recs.begin(), recs.end(), '\n');
+        if (cnt > 0 && recs.back() == '\n') {
+          ofstream out(blog, ios::binary | ios::app);
+          for (size_t n = 0; n * cnt <= std::max<size_t>(100, 3 * cnt) + cnt; ++n) out << recs;
+        }
+      }
+    }
+  }
+  {
+    ifstream in(dlog, ios::binary);
+    if (in) {
+      string b((istreambuf_iterator<char>(in)), istreambuf_iterator<char>());
+      in.close();
+      size_t pos = 16;
+      string recs;
+      size_t cnt = 0;
+      while (pos + 4 <= b.size()) {
+        uint32_t size = (unsigned char)b[pos] | ((unsigned char)b[pos + 1] << 8) | ((unsigned char)b[pos + 2] << 16) | ((uint32_t)(unsigned char)b[pos + 3] << 24);
+        bool isdeps = size >> 31;
+        size &= 0x7fffffffu;
+        if (pos + 4 + size > b.size()) break;
+        if (isdeps) { recs += b.substr(pos, 4 + size); ++cnt; }
+        pos += 4 + size;
+      }
+      if (cnt > 0 && pos == b.size()) {
+        ofstream out(dlog, ios::binary | ios::app);
+        for (size_t n = 0; n * cnt <= std::max<size_t>(1000, 3 * cnt) + cnt; ++n) out << recs;
+      }
+    }
+  }
+}
+
 static void RunOnce(Scenario sc /* by value: versions change */, long run_no, int tw = 0) {
   g_disk = ModelDisk();
   g_sc = &sc;
@@ -1171,6 +1218,8 @@ static void RunOnce(Scenario sc /* by value: versions change */, long run_no, in
       // the command line and response file the statement had at first
       for (auto& s : sc.stmts) if (s.id == step["s"].num()) { s.ver = 1; s.rspver = 1; }
       WriteManifest(sc);
+    } else if (op == "inflate") {
+      InflateLogs(g_scratch + "/.ninja_log", g_scratch + "/.ninja_deps");
     } else if (op == "droplog") {
       unlink((g_scratch + "/.ninja_log").c_str());
     } else if (op == "dropdeps") {
